@@ -40,146 +40,154 @@ def run(ctx):
     # ------------------------------------------------------------------ C10-operator-table + C10-chain
     ctx.rule("C10-operator-table", "each numeric predicate uses the operator its name denotes")
     ctx.rule("C10-chain", "an n-ary comparison is the conjunction of its adjacent pairs")
-    for name, meth in WANT.items():
-        r = regs.get(name)
-        if not r or not r["target"]:
-            ctx.report("C10-operator-table", name, "builtin %r is not registered" % name)
-            continue
-        f = fb.by_path(r["target"])
-        if f is None:
-            ctx.report("C10-operator-table", name, "target of %r not found: %s" % (name, r["target"]))
-            continue
-        cc = [c for c in cmp_calls(f) if c[3]]
-        ctx.inst("C10-operator-table", name, {"function": f.name.rsplit("::", 1)[-1], "comparisons": [c[2] for c in cc]})
-        if len(cc) != 1:
-            ctx.report("C10-operator-table", name, "%s: expected exactly one Number comparison, found %s" % (name, [c[2] for c in cc]), where_of(f))
-            continue
-        b, t, m, _ = cc[0]
-        nb = f.blocks[t["target"]]["term"]
-        if nb["k"] != "switch" or mir.op_local(nb["discr"]) != t["dest"]["local"]:
-            ctx.report("C10-operator-table", name + "/branch", "the comparison result is not branched on", where_of(f, t))
-            continue
-        false_t = dict((v, bb) for v, bb in nb["targets"]).get(0)
-        true_t = nb["otherwise"]
+    from . import numtables
+    d_cmp = numtables.rule_compare(ctx, "C10-operator-table", "C10-chain")
+    def _old_predicates():
+        for name, meth in WANT.items():
+            r = regs.get(name)
+            if not r or not r["target"]:
+                ctx.report("C10-operator-table", name, "builtin %r is not registered" % name)
+                continue
+            f = fb.by_path(r["target"])
+            if f is None:
+                ctx.report("C10-operator-table", name, "target of %r not found: %s" % (name, r["target"]))
+                continue
+            cc = [c for c in cmp_calls(f) if c[3]]
+            ctx.inst("C10-operator-table", name, {"function": f.name.rsplit("::", 1)[-1], "comparisons": [c[2] for c in cc]})
+            if len(cc) != 1:
+                ctx.report("C10-operator-table", name, "%s: expected exactly one Number comparison, found %s" % (name, [c[2] for c in cc]), where_of(f))
+                continue
+            b, t, m, _ = cc[0]
+            nb = f.blocks[t["target"]]["term"]
+            if nb["k"] != "switch" or mir.op_local(nb["discr"]) != t["dest"]["local"]:
+                ctx.report("C10-operator-table", name + "/branch", "the comparison result is not branched on", where_of(f, t))
+                continue
+            false_t = dict((v, bb) for v, bb in nb["targets"]).get(0)
+            true_t = nb["otherwise"]
 
-        def returns_bool(region, val):
-            for bb, i, s, a, v in mir.aggregates(f, region):
-                if v == "Boolean" and a.endswith("values::Value") and mir.const_val(s["rv"]["ops"][0]) is val:
-                    return True
-            return False
-        loops = f.loops()
-        head, body = (loops[-1] if loops else (None, set()))
-        # which outcome leaves with #f?
-        f_reg, t_reg = mir.dominated_region(f, false_t), mir.dominated_region(f, true_t)
-        fails_on_false = returns_bool(f_reg, False) and head in f.reachable(true_t)
-        fails_on_true = returns_bool(t_reg, False) and head in f.reachable(false_t)
-        eff = None
-        if fails_on_false and not fails_on_true:
-            eff = m
-        elif fails_on_true and not fails_on_false:
-            eff = {"lt": "ge", "le": "gt", "gt": "le", "ge": "lt", "eq": "ne", "ne": "eq"}[m]
-        ctx.inst("C10-operator-table", name + "/effective", {"holds_when": eff})
-        if eff != meth:
-            ctx.report("C10-operator-table", name + "/operator", "%r continues while `%s` holds between neighbours (expected `%s`)" % (name, eff, meth), where_of(f, t))
-        # ---- chain shape
-        if not loops:
-            ctx.report("C10-chain", name + "/loop", "no loop over the remaining arguments", where_of(f))
-            continue
-        p = Prov(f)
-        L, C = t["args"][0], t["args"][1]
-        lr, _ = mir.trace_access(f, L)
-        cr, _ = mir.trace_access(f, C)
-        # current derives from this iteration's next(); previous is re-assigned from current on the continue path
-        nexts = [(bb, tt) for bb, tt in f.calls(body) if callee_matches(tt, "Iterator::next", "Iterator>::next")]
-        cur_from_next = any(tt["dest"]["local"] in p.taint_reach(cr) for bb, tt in nexts) if cr is not None else False
-        cont_t = true_t if eff == m else false_t
-        cont_reg = mir.dominated_region(f, cont_t)
-        advanced = False
-        for bb, i, s in f.stmts(cont_reg):
-            if s["k"] == "assign" and s["place"]["local"] == lr and not s["place"]["proj"]:
-                src = mir.op_local(s["rv"]["op"]) if s["rv"]["k"] == "use" else None
-                if src is not None and cr in p.reach_locals(src):
-                    advanced = True
-        # (previous, current) order
-        first_items = [(bb, tt) for bb, tt in f.calls() if callee_matches(tt, "Iterator::next", "Iterator>::next") and bb not in body]
-        prev_init = any(tt["dest"]["local"] in p.taint_reach(lr) for bb, tt in first_items) if lr is not None else False
-        ctx.inst("C10-chain", name, {"current_from_iteration": cur_from_next, "previous_advanced": advanced, "previous_initialised_from_first": prev_init})
-        if not cur_from_next or not prev_init:
-            ctx.report("C10-chain", name + "/operands", "the comparison is not (previous argument, current argument)", where_of(f, t))
-        if not advanced:
-            ctx.report("C10-chain", name + "/advance", "after a successful comparison `previous` is not replaced by `current` "
-                       "(every argument would be compared with the first)", where_of(f, t))
-        # loop exit -> #t ; no arguments -> #t
-        exit_true = False
-        for bb, tt in nexts:
-            sw = mir.result_switch_after(f, bb)
-            if sw:
-                none_t = sw[1].get(0, sw[2])
-                if returns_bool(f.reachable(none_t) - body, True):
-                    exit_true = True
-        if not exit_true:
-            ctx.report("C10-chain", name + "/exit", "when all pairs hold the predicate does not return #t", where_of(f))
-        # every argument is type-checked
-        if not any(callee_matches(tt, "Value::expect_number") for _, tt in f.calls(body)):
-            ctx.report("C10-chain", name + "/type-check", "arguments in the loop are not checked with expect_number", where_of(f))
+            def returns_bool(region, val):
+                for bb, i, s, a, v in mir.aggregates(f, region):
+                    if v == "Boolean" and a.endswith("values::Value") and mir.const_val(s["rv"]["ops"][0]) is val:
+                        return True
+                return False
+            loops = f.loops()
+            head, body = (loops[-1] if loops else (None, set()))
+            # which outcome leaves with #f?
+            f_reg, t_reg = mir.dominated_region(f, false_t), mir.dominated_region(f, true_t)
+            fails_on_false = returns_bool(f_reg, False) and head in f.reachable(true_t)
+            fails_on_true = returns_bool(t_reg, False) and head in f.reachable(false_t)
+            eff = None
+            if fails_on_false and not fails_on_true:
+                eff = m
+            elif fails_on_true and not fails_on_false:
+                eff = {"lt": "ge", "le": "gt", "gt": "le", "ge": "lt", "eq": "ne", "ne": "eq"}[m]
+            ctx.inst("C10-operator-table", name + "/effective", {"holds_when": eff})
+            if eff != meth:
+                ctx.report("C10-operator-table", name + "/operator", "%r continues while `%s` holds between neighbours (expected `%s`)" % (name, eff, meth), where_of(f, t))
+            # ---- chain shape
+            if not loops:
+                ctx.report("C10-chain", name + "/loop", "no loop over the remaining arguments", where_of(f))
+                continue
+            p = Prov(f)
+            L, C = t["args"][0], t["args"][1]
+            lr, _ = mir.trace_access(f, L)
+            cr, _ = mir.trace_access(f, C)
+            # current derives from this iteration's next(); previous is re-assigned from current on the continue path
+            nexts = [(bb, tt) for bb, tt in f.calls(body) if callee_matches(tt, "Iterator::next", "Iterator>::next")]
+            cur_from_next = any(tt["dest"]["local"] in p.taint_reach(cr) for bb, tt in nexts) if cr is not None else False
+            cont_t = true_t if eff == m else false_t
+            cont_reg = mir.dominated_region(f, cont_t)
+            advanced = False
+            for bb, i, s in f.stmts(cont_reg):
+                if s["k"] == "assign" and s["place"]["local"] == lr and not s["place"]["proj"]:
+                    src = mir.op_local(s["rv"]["op"]) if s["rv"]["k"] == "use" else None
+                    if src is not None and cr in p.reach_locals(src):
+                        advanced = True
+            # (previous, current) order
+            first_items = [(bb, tt) for bb, tt in f.calls() if callee_matches(tt, "Iterator::next", "Iterator>::next") and bb not in body]
+            prev_init = any(tt["dest"]["local"] in p.taint_reach(lr) for bb, tt in first_items) if lr is not None else False
+            ctx.inst("C10-chain", name, {"current_from_iteration": cur_from_next, "previous_advanced": advanced, "previous_initialised_from_first": prev_init})
+            if not cur_from_next or not prev_init:
+                ctx.report("C10-chain", name + "/operands", "the comparison is not (previous argument, current argument)", where_of(f, t))
+            if not advanced:
+                ctx.report("C10-chain", name + "/advance", "after a successful comparison `previous` is not replaced by `current` "
+                           "(every argument would be compared with the first)", where_of(f, t))
+            # loop exit -> #t ; no arguments -> #t
+            exit_true = False
+            for bb, tt in nexts:
+                sw = mir.result_switch_after(f, bb)
+                if sw:
+                    none_t = sw[1].get(0, sw[2])
+                    if returns_bool(f.reachable(none_t) - body, True):
+                        exit_true = True
+            if not exit_true:
+                ctx.report("C10-chain", name + "/exit", "when all pairs hold the predicate does not return #t", where_of(f))
+            # every argument is type-checked
+            if not any(callee_matches(tt, "Value::expect_number") for _, tt in f.calls(body)):
+                ctx.report("C10-chain", name + "/type-check", "arguments in the loop are not checked with expect_number", where_of(f))
+    ctx.guarded('C10-operator-table', d_cmp >= 20, _old_predicates)
 
     # max / min
-    for name, meth in (("max", "gt"), ("min", "lt")):
-        r = regs.get(name)
-        f = fb.by_path(r["target"]) if r and r["target"] else None
-        if f is None:
-            ctx.report("C10-operator-table", name, "builtin %r is not registered" % name)
-            continue
-        cl = [c for c in fb.closures_of(f) if cmp_calls(c)]
-        if len(cl) != 1:
-            ctx.report("C10-operator-table", name, "fold closure of %s not recognised" % name, where_of(f))
-            continue
-        c = cl[0]
-        cc = [x for x in cmp_calls(c) if x[3]]
-        pc = Prov(c)
-        if len(cc) != 1:
-            ctx.report("C10-operator-table", name, "%s: expected one comparison in the fold closure" % name, where_of(c))
-            continue
-        b, t, m, _ = cc[0]
-        # operands: (accumulator = param 2, candidate = expect_number(param 3))
-        a0 = pc.arg_roots(t["args"][0])
-        a1c = {x for _, x in pc.call_roots(t["args"][1])}
-        nb = c.blocks[t["target"]]["term"]
-        false_t = dict((v, bb) for v, bb in nb["targets"]).get(0) if nb["k"] == "switch" else None
-        true_t = nb["otherwise"] if nb["k"] == "switch" else None
-        sel_true = [callee(tt).rsplit("::", 1)[-1] for _, tt in c.calls(mir.dominated_region(c, true_t))] if true_t is not None else []
-        sel_false = [callee(tt).rsplit("::", 1)[-1] for _, tt in c.calls(mir.dominated_region(c, false_t))] if false_t is not None else []
-        ctx.inst("C10-operator-table", name, {"comparison": m, "lhs_is_accumulator": a0 == {2}, "true_selects": sel_true, "false_selects": sel_false})
-        ok = (m == meth and a0 == {2} and "values::Value::expect_number" in a1c)
-        swapped = (m == {"gt": "lt", "lt": "gt"}[meth] and "values::Value::expect_number" in {x for _, x in pc.call_roots(t["args"][0])}
-                   and pc.arg_roots(t["args"][1]) == {2})
-        if not (ok or swapped):
-            ctx.report("C10-operator-table", name + "/operator", "%s compares with `%s` (accumulator first: %s); expected `%s`" % (name, m, a0 == {2}, meth), where_of(c, t))
-        # ------------------------------------------------------------ C10-maxmin-contagion
-        ctx.rule("C10-maxmin-contagion", "max/min return the promoted operand (inexact if any argument is inexact)")
-        ups = [(bb, tt) for bb, tt in c.calls() if callee(tt) == "values::upcast_oprands"]
-        if len(ups) != 1:
-            ctx.report("C10-maxmin-contagion", name + "/promote", "the operand pair is not promoted with upcast_oprands", where_of(c))
-        else:
-            agg = mir.trace_aggregate(c, ups[0][1]["args"][0])
-            pair_ok = bool(agg) and pc.arg_roots(agg["ops"][0]) == {2} and "values::Value::expect_number" in {x for _, x in pc.call_roots(agg["ops"][1])}
-            want_t, want_f = (["lhs"], ["rhs"]) if ok else (["rhs"], ["lhs"])
-            res_roots = {x for _, x in pc.call_roots(0)}
-            from_promoted = {"values::NumberBinaryOperand::lhs", "values::NumberBinaryOperand::rhs"} <= res_roots
-            raw = pc.arg_roots(0) & {2, 3}
-            ctx.inst("C10-maxmin-contagion", name, {"pair_is_(acc,candidate)": pair_ok, "result_from_promoted_pair": from_promoted})
-            if not pair_ok or sel_true != want_t or sel_false != want_f:
-                ctx.report("C10-maxmin-contagion", name + "/selection", "%s does not select lhs()/rhs() of the promoted (accumulator, "
-                           "candidate) pair consistently with its comparison (true: %s, false: %s)" % (name, sel_true, sel_false), where_of(c))
-            # the result must come only from the promoted pair: no raw operand may be returned
-            direct = [d for d in mir.defs_of(c).get(0, [])]
-            for bb, i, s, a, v in mir.aggregates(c):
-                if v == "Ok" and s["place"]["local"] == 0:
-                    rr = {x for _, x in pc.call_roots(s["rv"]["ops"][0])}
-                    ar = pc.arg_roots(s["rv"]["ops"][0])
-                    if not rr <= {"values::NumberBinaryOperand::lhs", "values::NumberBinaryOperand::rhs"} or (ar & {2, 3}) or not rr:
-                        ctx.report("C10-maxmin-contagion", name + "/raw-operand", "%s can return an operand that was not promoted "
-                                   "(roots %s, parameters %s)" % (name, sorted(rr), sorted(ar)), where_of(c))
+    def _old_maxmin():
+        for name, meth in (("max", "gt"), ("min", "lt")):
+            r = regs.get(name)
+            f = fb.by_path(r["target"]) if r and r["target"] else None
+            if f is None:
+                ctx.report("C10-operator-table", name, "builtin %r is not registered" % name)
+                continue
+            cl = [c for c in fb.closures_of(f) if cmp_calls(c)]
+            if len(cl) != 1:
+                ctx.report("C10-operator-table", name, "fold closure of %s not recognised" % name, where_of(f))
+                continue
+            c = cl[0]
+            cc = [x for x in cmp_calls(c) if x[3]]
+            pc = Prov(c)
+            if len(cc) != 1:
+                ctx.report("C10-operator-table", name, "%s: expected one comparison in the fold closure" % name, where_of(c))
+                continue
+            b, t, m, _ = cc[0]
+            # operands: (accumulator = param 2, candidate = expect_number(param 3))
+            a0 = pc.arg_roots(t["args"][0])
+            a1c = {x for _, x in pc.call_roots(t["args"][1])}
+            nb = c.blocks[t["target"]]["term"]
+            false_t = dict((v, bb) for v, bb in nb["targets"]).get(0) if nb["k"] == "switch" else None
+            true_t = nb["otherwise"] if nb["k"] == "switch" else None
+            sel_true = [callee(tt).rsplit("::", 1)[-1] for _, tt in c.calls(mir.dominated_region(c, true_t))] if true_t is not None else []
+            sel_false = [callee(tt).rsplit("::", 1)[-1] for _, tt in c.calls(mir.dominated_region(c, false_t))] if false_t is not None else []
+            ctx.inst("C10-operator-table", name, {"comparison": m, "lhs_is_accumulator": a0 == {2}, "true_selects": sel_true, "false_selects": sel_false})
+            ok = (m == meth and a0 == {2} and "values::Value::expect_number" in a1c)
+            swapped = (m == {"gt": "lt", "lt": "gt"}[meth] and "values::Value::expect_number" in {x for _, x in pc.call_roots(t["args"][0])}
+                       and pc.arg_roots(t["args"][1]) == {2})
+            if not (ok or swapped):
+                ctx.report("C10-operator-table", name + "/operator", "%s compares with `%s` (accumulator first: %s); expected `%s`" % (name, m, a0 == {2}, meth), where_of(c, t))
+            # ------------------------------------------------------------ C10-maxmin-contagion
+            ctx.rule("C10-maxmin-contagion", "max/min return the promoted operand (inexact if any argument is inexact)")
+            ups = [(bb, tt) for bb, tt in c.calls() if callee(tt) == "values::upcast_oprands"]
+            if len(ups) != 1:
+                ctx.report("C10-maxmin-contagion", name + "/promote", "the operand pair is not promoted with upcast_oprands", where_of(c))
+            else:
+                agg = mir.trace_aggregate(c, ups[0][1]["args"][0])
+                pair_ok = bool(agg) and pc.arg_roots(agg["ops"][0]) == {2} and "values::Value::expect_number" in {x for _, x in pc.call_roots(agg["ops"][1])}
+                want_t, want_f = (["lhs"], ["rhs"]) if ok else (["rhs"], ["lhs"])
+                res_roots = {x for _, x in pc.call_roots(0)}
+                from_promoted = {"values::NumberBinaryOperand::lhs", "values::NumberBinaryOperand::rhs"} <= res_roots
+                raw = pc.arg_roots(0) & {2, 3}
+                ctx.inst("C10-maxmin-contagion", name, {"pair_is_(acc,candidate)": pair_ok, "result_from_promoted_pair": from_promoted})
+                if not pair_ok or sel_true != want_t or sel_false != want_f:
+                    ctx.report("C10-maxmin-contagion", name + "/selection", "%s does not select lhs()/rhs() of the promoted (accumulator, "
+                               "candidate) pair consistently with its comparison (true: %s, false: %s)" % (name, sel_true, sel_false), where_of(c))
+                # the result must come only from the promoted pair: no raw operand may be returned
+                direct = [d for d in mir.defs_of(c).get(0, [])]
+                for bb, i, s, a, v in mir.aggregates(c):
+                    if v == "Ok" and s["place"]["local"] == 0:
+                        rr = {x for _, x in pc.call_roots(s["rv"]["ops"][0])}
+                        ar = pc.arg_roots(s["rv"]["ops"][0])
+                        if not rr <= {"values::NumberBinaryOperand::lhs", "values::NumberBinaryOperand::rhs"} or (ar & {2, 3}) or not rr:
+                            ctx.report("C10-maxmin-contagion", name + "/raw-operand", "%s can return an operand that was not promoted "
+                                       "(roots %s, parameters %s)" % (name, sorted(rr), sorted(ar)), where_of(c))
+    ctx.rule("C10-maxmin-contagion", "max/min return the promoted operand (inexact if any argument is inexact)")
+    d_mm = numtables.rule_maxmin(ctx, "C10-operator-table", "C10-maxmin-contagion")
+    ctx.guarded('C10-maxmin-contagion', d_mm >= 8, _old_maxmin)
 
     # lhs()/rhs() return the matching half of the promoted pair
     for nm, idxs in (("lhs", {"Integer": [0], "Real": [0], "Rational": [0, 1]}), ("rhs", {"Integer": [1], "Real": [1], "Rational": [2, 3]})):
@@ -198,7 +206,8 @@ def run(ctx):
 
     # ------------------------------------------------------------------ C10-cross-mult
     ctx.rule("C10-cross-mult", "ratios are compared by lhs.num*rhs.den against rhs.num*lhs.den, in that order")
-    cross_mult(ctx, fb)
+    d_cross = numtables.rule_cross(ctx, "C10-cross-mult")
+    ctx.guarded("C10-cross-mult", d_cross >= 3, lambda: cross_mult(ctx, fb))
 
     # ------------------------------------------------------------------ C10-eqv
     ctx.rule("C10-eqv", "eqv? on numbers is true only for the same exactness class")
